@@ -74,13 +74,14 @@ def program(rng) -> tuple[str, dict[str, str], str]:
         elif kind == "dataclass":
             body.append(f"@dataclasses.dataclass\nclass {nm}:\n    a: {t()}\n    b: {t()} = dataclasses.field(default=None)")
         elif kind == "class":
-            bases = rng.sample(names, rng.randint(0, 2))
+            # (direct self-inheritance `class N(N)` is left to the `cyclic` mutator: see known finding C20-self-base)
+            bases = rng.sample([x for x in names if x != nm], rng.randint(0, 2))
             if rng.random() < 0.3:
                 bases.append(f"Generic[T_{nm}]")
                 body.append(f"T_{nm} = TypeVar('T_{nm}', bound={t()})")
             hdr = f"class {nm}({', '.join(bases)}):" if bases else f"class {nm}:"
             body.append(f"{hdr}\n    x: {t()}\n    def m(self, a: {t()}) -> {t()}:\n        return self.x\n"
-                        f"    class Inner({rng.choice(names)}):\n        y: {t()}")
+                        f"    class Inner({rng.choice([x for x in names if x != nm])}):\n        y: {t()}")
         elif kind == "protocol":
             body.append(f"class {nm}(Protocol):\n    def m(self, a: {t()}) -> {t()}: ...\n    @property\n    def p(self) -> {t()}: ...")
         elif kind == "enum":
@@ -92,7 +93,7 @@ def program(rng) -> tuple[str, dict[str, str], str]:
         elif kind == "typevar":
             body.append(f"{nm} = TypeVar('{nm}', {t()}, {t()})")
         elif kind == "generic":
-            body.append(f"T_{nm} = TypeVar('T_{nm}')\nclass {nm}(Generic[T_{nm}], {rng.choice(names)}):\n    v: T_{nm}\n"
+            body.append(f"T_{nm} = TypeVar('T_{nm}')\nclass {nm}(Generic[T_{nm}], {rng.choice([x for x in names if x != nm])}):\n    v: T_{nm}\n"
                         f"    def get(self) -> '{nm}[{t()}]': ...")
         elif kind == "final":
             a, b = rng.randint(0, 99), rng.randint(0, 12)
